@@ -17,9 +17,14 @@ type ColAuto struct {
 // Infer and initialize Column from ColumnType.
 func (c *ColAuto) Infer(t ColumnType) error {
 	if c.Data != nil && !c.Type().Conflicts(t) {
-		// Already ok.
-		c.DataType = t // update subtype if needed
-		return nil
+		// Already ok, but the parameters of t (enum values, precision,
+		// time zone) can differ from the ones the column was inferred with.
+		v, inferable := c.Data.(Inferable)
+		if !inferable || v.Infer(t) == nil {
+			c.DataType = t // update subtype if needed
+			return nil
+		}
+		// The column can't take the parameters of t, inferring anew.
 	}
 	if v := inferGenerated(t); v != nil {
 		c.Data = v
